@@ -63,6 +63,39 @@ func (s *Sched) pick() int {
 			}
 		}
 		return best
+	case "spawn-last":
+		// a goroutine about to start a dependent step waits while anything else can run
+		var idx []int
+		for i, t := range s.waiting {
+			if t.kind != "spawn" {
+				idx = append(idx, i)
+			}
+		}
+		if len(idx) > 0 {
+			return idx[s.r.Intn(len(idx))]
+		}
+		return s.r.Intn(n)
+	case "starve-collector":
+		// the collector only gets to run when nothing else can: the result channel stays full
+		var idx, spawns []int
+		for i, t := range s.waiting {
+			switch t.kind {
+			case "collect":
+			case "spawn":
+				spawns = append(spawns, i)
+			default:
+				idx = append(idx, i)
+			}
+		}
+		if len(idx) > 0 {
+			return idx[s.r.Intn(len(idx))]
+		}
+		// nothing but spawners and the collector: let the collector free ONE slot first half of the time,
+		// so that a child of a parked spawner can overtake its parent if the code allows it
+		if len(spawns) > 0 && s.r.Intn(2) == 0 {
+			return spawns[s.r.Intn(len(spawns))]
+		}
+		return s.r.Intn(n)
 	case "calls-first", "push-first":
 		want := "call"
 		if s.policy == "push-first" {
@@ -134,7 +167,10 @@ func (s *Sched) Stop() {
 
 // SchedLogger parks the executor's goroutines at the "Pushing Result" log site. It looks only at the leading
 // string and at the insertion point ([]string), never at result maps.
-type SchedLogger struct{ S *Sched }
+type SchedLogger struct {
+	S             *Sched
+	GateCollector bool
+}
 
 func (l SchedLogger) Debug(args ...interface{}) {
 	if len(args) >= 2 {
@@ -144,10 +180,28 @@ func (l SchedLogger) Debug(args ...interface{}) {
 				label = strings.Join(ip, "/")
 			}
 			l.S.Park("push", label)
+		} else if ok && l.GateCollector && strings.HasPrefix(s, "Inserting result into") {
+			// the collector has just received a result and is about to merge it
+			label := ""
+			if ip, ok := args[1].([]string); ok {
+				label = strings.Join(ip, "/")
+			}
+			l.S.Park("collect", label)
 		}
 	}
 }
-func (l SchedLogger) Info(args ...interface{})                               {}
+// Info: the executor logs "Spawn <insertion point>" before starting each dependent step
+func (l SchedLogger) Info(args ...interface{}) {
+	if len(args) >= 2 {
+		if s, ok := args[0].(string); ok && strings.HasPrefix(s, "Spawn") {
+			label := ""
+			if ip, ok := args[1].([]string); ok {
+				label = strings.Join(ip, "/")
+			}
+			l.S.Park("spawn", label)
+		}
+	}
+}
 func (l SchedLogger) Warn(args ...interface{})                               {}
 func (l SchedLogger) WithFields(fields gateway.LoggerFields) gateway.Logger { return l }
 func (l SchedLogger) QueryPlanStep(step *gateway.QueryPlanStep)              {}
